@@ -266,6 +266,9 @@ def catalogue_c15(tier):
           timed(case('c15/timer-unsub-at-once', T('timer', 100, b=7), [[UNSUB1, SL(400)]], tags=W), 100),
           timed(case('c15/interval-unsub-at-once', iv(100), [[UNSUB1, SL(400)]], tags=W), 100),
           timed(case('c15/observe_on-unsub-at-once', T('observe_on', ins=[S(1)]), [[UNSUB1, SL(300)]], tags=W), 100),
+          timed(case('c15/timer-1500-unsub-early', T('timer', 1500, b=7), [[SL(50), UNSUB1, SL(4000)]], tags=W), 1500),
+          timed(case('c15/interval-1500-unsub', T('interval', 1500), [[SL(2000), UNSUB1, SL(4000)]], tags=W), 1500),
+          timed(case('c15/interval-1500-take1', T('take', 1, ins=[T('interval', 1500)]), [[SL(5000)]], tags=W), 1500),
           timed(case('c15/debounce-complete', T('debounce', 100, ins=[S(1)]), [[E(1, 'n', 11), SL(150), E(1, 'c'), SL(400)]], tags=W), 100),
           timed(case('c15/debounce-unsub', T('debounce', 100, ins=[S(1)]), [[E(1, 'n', 11), SL(150), UNSUB1, SL(400)]], tags=W), 100),
           timed(case('c15/timeout-complete', T('timeout', 100, ins=[S(1)]), [[E(1, 'n', 11), SL(20), E(1, 'c'), SL(500)]], tags=W), 100),
@@ -285,7 +288,8 @@ def catalogue_c15(tier):
 def catalogue_c16(tier):
     iv = lambda d: T('interval', d)
     cs = []
-    for d in ([100, 35] if tier == 'quick' else [100, 150, 35, 7]):
+    # (virtual time makes long periods free: 1100 ms covers code that treats periods above one second differently)
+    for d in ([100, 35, 1100] if tier == 'quick' else [100, 150, 35, 7, 1100, 2500]):
         cs += [timed(case('c16/interval-%d' % d, iv(d), [[SL(3 * d + d // 2), UNSUB1, SL(3 * d)]], tags=['interval']), d),
                timed(case('c16/timer-%d' % d, T('timer', d, b=7), [[SL(3 * d)]], tags=['timer']), d),
                timed(case('c16/delay-%d' % d, T('delay', d, ins=[S(1)]), [[E(1, 'n', 11), SL(40), E(1, 'n', 12), E(1, 'c')]], tags=['delay']), d),
